@@ -2,6 +2,7 @@ package core
 
 import (
 	"encoding/json"
+	"errors"
 	"fmt"
 	"math/rand"
 	"os"
@@ -256,6 +257,9 @@ type BatchOutcome struct {
 	PerScenario map[string]map[string]int
 }
 
+// ErrHarness marks failures of the harness itself (never a verdict about the code under test).
+var ErrHarness = errors.New("harness failure")
+
 // Self is the path of the running binary (children are the same binary).
 func Self() string {
 	p, err := os.Executable()
@@ -330,8 +334,9 @@ func runChild(tag string, scs []Scenario, workDir string, timeout time.Duration)
 	job := Job{Scenarios: scs, OutDir: workDir, Tag: tag}
 	jb, _ := json.Marshal(job)
 	jobPath := filepath.Join(workDir, tag+".job.json")
+	_ = os.MkdirAll(workDir, 0o755)
 	if err := os.WriteFile(jobPath, jb, 0o644); err != nil {
-		return JobResult{}, "", err
+		return JobResult{}, "", fmt.Errorf("%w: %v", ErrHarness, err)
 	}
 	_ = os.Remove(filepath.Join(workDir, tag+".hang.json"))
 	bin := Self()
@@ -343,7 +348,7 @@ func runChild(tag string, scs []Scenario, workDir string, timeout time.Duration)
 	cmd.Stdout = &sb
 	cmd.Stderr = &sb
 	if err := cmd.Start(); err != nil {
-		return JobResult{}, "", err
+		return JobResult{}, "", fmt.Errorf("%w: %v", ErrHarness, err)
 	}
 	done := make(chan error, 1)
 	go func() { done <- cmd.Wait() }()
@@ -367,6 +372,10 @@ func runChild(tag string, scs []Scenario, workDir string, timeout time.Duration)
 func runBatch(tag string, scs []Scenario, vs ValidateSpec, workDir string, timeout time.Duration, depth int) BatchOutcome {
 	o := BatchOutcome{Counters: map[string]int{}, PerScenario: map[string]map[string]int{}}
 	jr, childOut, werr := runChild(tag, scs, workDir, timeout)
+	if werr != nil && errors.Is(werr, ErrHarness) {
+		o.Infra = append(o.Infra, werr.Error())
+		return o
+	}
 	if werr != nil {
 		// A watchdog exit (3) or a crash: find the scenario that was running.
 		running := -1
